@@ -6,7 +6,7 @@ Returns dict(dir=..., harness=..., vata=..., hash=..., built=bool, wall_s=...).
 The cache key is a hash of every source file the build reads, so identical trees are built once and shared by all
 checks; an edited tree is rebuilt.  Only the two most recent build trees are kept.
 """
-import fcntl, hashlib, os, shutil, subprocess, sys, time
+import fcntl, hashlib, os, re, shutil, subprocess, sys, time
 
 VERIF = os.path.dirname(os.path.dirname(os.path.abspath(__file__)))
 REPO = os.environ.get("VERIF_REPO", "/repo")
@@ -87,13 +87,28 @@ def ensure_build(flavour="asan"):
         def link_harness():
             lib = os.path.join(d, "b", "src", "libvata.a")
             hsrc = os.path.join(VERIF, "harness", "vharness.cc")
-            cmd = (f"g++ -std=c++11 {flags} -Wno-deprecated-declarations -I{src}/include -I{src}/src -I{src} "
-                   f"{hsrc} {lib} -o {harness}.tmp && mv {harness}.tmp {harness}")
-            rc, out = run(cmd, log=log)
-            if rc != 0:
+            disabled = []
+            for attempt in range(4):
+                defs = " ".join(f"-DVH_NO_{k.upper()}" for k in disabled)
+                cmd = (f"g++ -std=c++11 {flags} {defs} -Wno-deprecated-declarations -I{src}/include -I{src}/src -I{src} "
+                       f"{hsrc} {lib} -o {harness}.tmp && mv {harness}.tmp {harness}")
+                rc, out = run(cmd, log=log)
+                if rc == 0:
+                    break
+                # the histories on utility classes (harness/ops/op_<kind>.inc) look inside those classes: when one of them no
+                # longer compiles against the tree under test only ITS kind is switched off (its cases are then reported as a
+                # broken correspondence), the rest of the harness keeps working
+                bad = sorted(set(re.findall(r"ops/op_(\w+)\.inc:\d+:\d+: error", out)) - set(disabled))
+                if not bad:
+                    raise RuntimeError("harness build failed:\n" + out[-6000:])
+                disabled += bad
+                res["harness_errors"] = res.get("harness_errors", "") + out[-1500:]
+            else:
                 raise RuntimeError("harness build failed:\n" + out[-6000:])
+            with open(harness + ".disabled", "w") as fh:
+                fh.write(" ".join(disabled))
             for old in os.listdir(d):
-                if old.startswith("vharness-") and os.path.join(d, old) != harness and not old.endswith(".tmp"):
+                if old.startswith("vharness-") and not old.startswith(os.path.basename(harness)) and not old.endswith(".tmp"):
                     try:
                         os.remove(os.path.join(d, old))
                     except OSError:
